@@ -416,6 +416,10 @@ type projGen struct {
 // total-kept samples that the job's metric_relabel_configs drop (label drop="1").  The samples
 // are spread over two metric names and every sample has its own label set, so that label
 // leakage between rows would change the counts.
+// the value of the label `drop` that the metric relabeling rules in force remove ("1" with sideCfgYAML as it stands; a
+// replay may reload the configuration with another regular expression)
+var payloadDrop = "1"
+
 func payload(kept, total int, seed int64) []byte {
 	// samples that metric relabeling drops carry drop="1"; they come before, between and after the kept ones, and the
 	// number of labels varies from sample to sample (none, one, two, three), so that whatever is remembered from one
@@ -447,9 +451,9 @@ func payload(kept, total int, seed int64) []byte {
 			name = "m_a"
 		}
 		if (i+int(seed))%2 == 0 {
-			dropL = append(dropL, fmt.Sprintf("%s{idx=\"%d\",drop=\"1\"} %d\n", name, n, i+1))
+			dropL = append(dropL, fmt.Sprintf("%s{idx=\"%d\",drop=\"%s\"} %d\n", name, n, payloadDrop, i+1))
 		} else {
-			dropL = append(dropL, fmt.Sprintf("%s{az=\"z\",idx=\"%d\",drop=\"1\"} %d\n", name, n, i+1))
+			dropL = append(dropL, fmt.Sprintf("%s{az=\"z\",idx=\"%d\",drop=\"%s\"} %d\n", name, n, payloadDrop, i+1))
 		}
 		n++
 	}
